@@ -120,6 +120,8 @@ func (conn *Conn) recv() {
 			req := new(SrvReq)
 			select {
 			case req.Rc = <-conn.rchan:
+				// a recycled buffer must not look like the reply of the new request
+				req.Rc.Type = 0
 			default:
 				req.Rc = NewFcall(conn.Msize)
 			}
